@@ -9,7 +9,7 @@ RULE = ('(A) exhaustive quarter-LSB sweep of every format with n_word<=3 (quick)
         'values up to 3x the range on both sides; (C) period pairs v and v+k*2^(n_word-n_frac) (floor/ceil/around always; trunc/fix when integral or same side of zero); '
         '(D) n_word 64..256 with Python integers of up to 4x the word length, raw and value mode, compared with Spec.wrap_res and with the model object path; '
         '(E) register arithmetic: results of + - * stored with wrap into a fixed format, chains of up to 6 operations, widths 2..100; (F) values held by 64..128-bit objects copied into core words; '
-        '(G) + - * on operands of at most 52 bits stored through out= / op_out into wrap registers of 64..128 bits with any fraction length 0..n_word and into narrow registers (8..40 bits), operands being scalars, array elements or arrays. '
+        '(G) + - * on operands of at most 52 bits stored through out= / op_out into wrap registers of 64..128 bits with any fraction length 0..n_word and into narrow registers (8..40 bits), operands being scalars, array elements or arrays; sum / max of arrays of 2..4 codes of 45..60 bits into registers with fewer fraction bits (a raw result beyond 53 bits rescaled by a negative power of two). '
         'Non-trivial = the rounded input is outside the range (a wrap actually happens); distinct by full input.')
 ASSUMPTIONS = ['the period law is enforced in the forms that are consequences of the congruence (see DESIGN.md C03 interpretation decision)']
 
